@@ -3545,14 +3545,15 @@ in_float_range(PyObject *value, PyObject *range_info)
         return -1;
     }
 
+    /* The comparisons are written so that a NaN value is never in range. */
     if (low != Py_None) {
         if ((exclude_mask & 1) != 0) {
-            if (PyFloat_AS_DOUBLE(value) <= PyFloat_AS_DOUBLE(low)) {
+            if (!(PyFloat_AS_DOUBLE(value) > PyFloat_AS_DOUBLE(low))) {
                 return 0;
             }
         }
         else {
-            if (PyFloat_AS_DOUBLE(value) < PyFloat_AS_DOUBLE(low)) {
+            if (!(PyFloat_AS_DOUBLE(value) >= PyFloat_AS_DOUBLE(low))) {
                 return 0;
             }
         }
@@ -3560,12 +3561,12 @@ in_float_range(PyObject *value, PyObject *range_info)
 
     if (high != Py_None) {
         if ((exclude_mask & 2) != 0) {
-            if (PyFloat_AS_DOUBLE(value) >= PyFloat_AS_DOUBLE(high)) {
+            if (!(PyFloat_AS_DOUBLE(value) < PyFloat_AS_DOUBLE(high))) {
                 return 0;
             }
         }
         else {
-            if (PyFloat_AS_DOUBLE(value) > PyFloat_AS_DOUBLE(high)) {
+            if (!(PyFloat_AS_DOUBLE(value) <= PyFloat_AS_DOUBLE(high))) {
                 return 0;
             }
         }
